@@ -91,6 +91,16 @@ OK14Conv(e) ==
         /\ e.eof3 = (e.kind = "UnexpectedEof") /\ e.eof5 = e.eof3
     ELSE e.back = "InvalidData"
 
+\* faults inside a 5 MiB packet: row = <<position, fault, who, k, error, arg, bytes in the sink, prefix? / eof?>>
+BigFaultOK(e) ==
+    \A i \in 1..Len(e.rows) :
+        LET d == e.rows[i] IN
+        IF d[3] = "enc" THEN
+            /\ IoErr(d[4], d[5], d[6], IF d[2] = "Zero" THEN "WriteZero" ELSE d[2])
+            /\ d[7] < e.total /\ d[8]
+        ELSE IF d[2] = "Zero" THEN d[4] = "err" /\ d[8]                       \* end of the stream: recognised as EOF
+        ELSE IoErr(d[4], d[5], d[6], d[2]) /\ ~d[8]
+
 Accept(e) ==
     CASE e.ev = "Cut"   -> (Prop = "C07" => OK07(e))
       [] e.ev = "Dec3"  -> (CASE Prop = "C06" -> OK06(e) [] Prop = "C03" -> OK03(e) [] OTHER -> TRUE)
@@ -98,6 +108,7 @@ Accept(e) ==
       [] e.ev = "BigDec" -> (CASE Prop = "C03" -> BigDec03(e) [] Prop = "C06" -> BigDec06(e) [] OTHER -> TRUE)
       [] e.ev = "Fault" -> (Prop = "C14" => OK14(e))
       [] e.ev = "Conv"  -> (Prop = "C14" => OK14Conv(e))
+      [] e.ev = "BigFault" -> (Prop = "C14" => BigFaultOK(e))
       [] e.ev = "End"   -> l = Len(Rec)
       [] OTHER -> FALSE
 
